@@ -324,16 +324,6 @@ Qed.
 End Remove.
 
 (* ------------------------------------------------------------------ assembling the property *)
-Lemma loaded_path c f : Forall (fun l => l_path l = layer_path c (l_name l)) (read_layer_files c f).
-Proof.
-  unfold read_layer_files. generalize (Lex.sort (children f (c_layers c))). intros names.
-  induction names as [|n r IH]; cbn [fold_right]; [constructor|].
-  destruct (legal_name n); [|exact IH]. destruct (load_layer c f n) as [l|] eqn:E; [|exact IH].
-  constructor; [|exact IH]. unfold load_layer in E.
-  match type of E with match ?t with _ => _ end = _ => destruct t end; [|discriminate].
-  injection E as <-. reflexivity.
-Qed.
-
 Lemma root_not_ends_ok : ends_ok root = false.
 Proof. reflexivity. Qed.
 
